@@ -23,6 +23,7 @@ import (
 	"fmt"
 	"image"
 	"image/png"
+	"io"
 	"math/rand"
 	"os"
 	"os/exec"
@@ -247,6 +248,20 @@ func (x *sioCtx) edit(i int, op Op) string {
 	tok := fmt.Sprintf("T%d", i)
 	d := x.doc
 	switch op.Name() {
+	case "openmin":
+		// origin class "opened": the document becomes one opened from a package of another producer whose
+		// styles part defines only the default paragraph style (the library keeps such a styles part and
+		// patches it when the body refers to styles it does not define)
+		b, err := sioMinimalForeign(tok)
+		if err != nil {
+			return "err"
+		}
+		nd, err := document.OpenFromMemory(io.NopCloser(bytes.NewReader(b)))
+		if err != nil {
+			return "err"
+		}
+		x.doc = nd
+		x.lastPath = ""
 	case "para":
 		d.AddParagraph("paragraph " + tok)
 	case "heading":
@@ -332,6 +347,49 @@ func (x *sioCtx) edit(i int, op Op) string {
 		return "unknown-op"
 	}
 	return "ok"
+}
+
+// sioMinimalForeign is a package as another producer writes it: the library's own output for a
+// one-paragraph document with word/styles.xml replaced by a part that defines only "Normal".
+func sioMinimalForeign(tok string) ([]byte, error) {
+	od := document.New()
+	od.AddParagraph("opened " + tok)
+	b, err := od.ToBytes()
+	if err != nil {
+		return nil, err
+	}
+	zr, err := zip.NewReader(bytes.NewReader(b), int64(len(b)))
+	if err != nil {
+		return nil, err
+	}
+	var out bytes.Buffer
+	zw := zip.NewWriter(&out)
+	for _, f := range zr.File {
+		w, err := zw.Create(f.Name)
+		if err != nil {
+			return nil, err
+		}
+		if f.Name == "word/styles.xml" {
+			io.WriteString(w, `<?xml version="1.0" encoding="UTF-8" standalone="yes"?>`+
+				`<w:styles xmlns:w="http://schemas.openxmlformats.org/wordprocessingml/2006/main">`+
+				`<w:style w:type="paragraph" w:default="1" w:styleId="Normal"><w:name w:val="Normal"/><w:qFormat/></w:style>`+
+				`</w:styles>`)
+			continue
+		}
+		r, err := f.Open()
+		if err != nil {
+			return nil, err
+		}
+		_, err = io.Copy(w, r)
+		r.Close()
+		if err != nil {
+			return nil, err
+		}
+	}
+	if err := zw.Close(); err != nil {
+		return nil, err
+	}
+	return out.Bytes(), nil
 }
 
 // ---------------------------------------------------------------- targets
